@@ -214,7 +214,7 @@ class Emitter:
                 return '_'
             if ids == ['Self']:
                 return ctx.self_ty
-            if ids == ['Self', 'Output']:
+            if ids == ['Self', 'Output'] or ids == ['Self', 'RealField']:
                 return ctx.self_ty
             if ids == ['Self', 'Inner']:
                 return 'T' if ctx.sec.kind != 'float' else 'F'
@@ -554,6 +554,9 @@ class Emitter:
             return '(fl_eps : F)'
         if not a and last in FCONSTS and tp == 'F':
             return '(fl_const C_%s : F)' % last
+        if not a and last in FCONSTS and tp == 'T':
+            # FloatConst of the inner number: the lifted float constant (C08 proves this of every dual type)
+            return '(ofF (fl_const C_%s : F) : T)' % last
         if tp == 'F' and len(a) == 1 and last.startswith('from_') and last[5:] in INT_TYPES | {'usize'}:
             if last == 'from_usize':
                 return '(Some (castZ (Z.of_nat %s) : F))' % a[0]
